@@ -163,6 +163,10 @@ M = [
  # --- mechanisms repaired after batch 12
  ('parent-guess-refresh-skipped', 'stage.py', "                    if hasattr(s._method, 'set_initial') and any(isinstance(v, MX) and not v.is_constant() for v in s._initial.values()):\n", "                    if False:\n", ['C09']),
  ('inf-on-signal-accepted', 'sampling_method.py', "        if ca.depends_on(c, vvcat(stage._signals.keys())):\n", "        if False:\n", ['C15']),
+ # --- batch 13
+ ('param-signal-horizon', 'sampling_method.py', "BSplineSignal(C, self.xi, d, T = self.T,parametric=True)", "BSplineSignal(C, self.xi, d, T = 2*self.T,parametric=True)", ['C17']),
+ ('stateless-guess-refresh', 'stage.py', "if hasattr(s._method, 'set_initial') and any(isinstance(v, MX) and not v.is_constant() for v in s._initial.values()):", "if s._stages and hasattr(s._method, 'set_initial') and any(isinstance(v, MX) and not v.is_constant() for v in s._initial.values()):", ['C13']),
+ ('load-resets-localize-T-of-integrator-grids', 'ocp.py', "            return pickle.load(open(name,\"rb\"))", "            ocp = pickle.load(open(name,\"rb\"))\n        for s in ocp.iter_stages(include_self=True):\n            g = getattr(s._method, 'time_grid', None)\n            if hasattr(g, 'cache'): g.localize_T = False\n        return ocp", ['C18']),
 ]
 
 def main():
